@@ -18,6 +18,7 @@ mod jspell;
 mod jtok;
 mod rng;
 mod same;
+mod shrink;
 mod spell;
 mod vx;
 
@@ -106,6 +107,11 @@ fn main() {
             let mut ctx = Ctx::new(prop, Tier::Quick, 0, &args[5], 0, exec);
             ctx.case(&args[3], &args[4]);
             ctx.finish();
+        }
+        "shrink" => {
+            // hsverif shrink <prop> <kind> <label> <input>
+            let (_gen, exec) = prop_fns(&args[2]).unwrap_or_else(|| std::process::exit(2));
+            println!("{}", shrink::shrink(exec, &args[3], &args[4], &args[5]));
         }
         "canon" => vx::canon_stdin(),
         "dump" => gen::dump(&args[2]),
